@@ -5,11 +5,14 @@
 package c07
 
 import (
+	"os"
+
 	"verif/checks/chainx"
 	"verif/mc"
 )
 
-var hooks = chainx.Hooks{Supply: true}
+// PerBlock: observer of the take-effect exits of the period-end blocks (counters + the exact-refund oracle, chainx/limits.go)
+var hooks = chainx.Hooks{Supply: true, PerBlock: chainx.TakeEffectExits}
 
 func Run(r *mc.Run) {
 	r.Level = "model_checking"
@@ -24,19 +27,52 @@ func Run(r *mc.Run) {
 	// (0 < pool < wanted subsidy) and go on with an empty pool
 	dry, dry2 := noForced, noForced
 	dry.PoolTenths, dry2.PoolTenths = 187, 262
+	// inactivity slashing switched ON (every other configuration waits 1000 rounds): a chamber validator that has
+	// not proposed for more than one round is penalised and expelled at the period end; with two extra senators
+	// that never propose, several validators are slashed in one block
+	inact, inact2 := noForced, noForced
+	inact.InactivityWait, inact2.InactivityWait, inact2.ExtraChamber = 1, 1, 2
+	only := os.Getenv("VERIF_C07_ONLY") // testing aid: "limits" = the at-the-limit exploration alone
 	if r.Quick() {
 		r.SetBudget(400e9)
+		limits(r, noForced, freq3)
+		if only == "limits" {
+			return
+		}
 		chainx.Explore(r, hooks, []chainx.ParamCfg{noForced}, chainx.MenuCore, 4, 3)
 		chainx.Explore(r, hooks, []chainx.ParamCfg{forced}, chainx.MenuCore, 3, 2)
 		chainx.Explore(r, hooks, []chainx.ParamCfg{dry}, chainx.MenuCore, 4, 2)
+		chainx.Explore(r, hooks, []chainx.ParamCfg{inact2}, chainx.MenuCore, 4, 1)
 	} else {
 		r.SetBudget(45 * 60e9)
+		limits(r, noForced, freq3)
+		if only == "limits" {
+			return
+		}
 		menu := append(append([]string{}, chainx.MenuCore...), chainx.MenuMore...)
 		chainx.Explore(r, hooks, []chainx.ParamCfg{noForced, freq3}, menu, 4, 4)
 		chainx.Explore(r, hooks, []chainx.ParamCfg{forced}, chainx.MenuCore, 5, 4)
 		chainx.Explore(r, hooks, []chainx.ParamCfg{dry, dry2}, chainx.MenuCore, 5, 3)
+		chainx.Explore(r, hooks, []chainx.ParamCfg{inact, inact2}, chainx.MenuCore, 5, 3)
 	}
 	r.Assume("driver: coinbase is always an existing online chamber validator; the last online chamber validator is never taken offline")
+}
+
+// limits: the take-effect failure exits of the staking transactions.  From scripted states in which the senator s1
+// stands exactly at MaxStakes (one delegator D1 / one delegator D2 / two delegators with D1's own delegation slots
+// full) or one unit below, at the start of a staking period, every sequence of blocks over chainx.MenuLimits.
+func limits(r *mc.Run, noForced, freq3 chainx.ParamCfg) {
+	r.Rule += "; AT THE LIMITS: from scripted start states in which senator s1 stands exactly at MaxStakes (60 units) at the start of a staking period - with one delegator (D1, or D2), with two delegators while D1's own delegation slots are full, or one unit below with one delegator - every sequence of <= depth blocks over chainx.MenuLimits (the delegator leaves wholly/partly, another account joins with a fixed amount or with exactly what the pending total leaves up to MaxStakes, both as separate blocks in either order and as one block, for both assignments of D1/D2 and for the plain account P: the three pending-record keys sort P < s1's own record < D2 < D1 in the staking trie, so every evaluation order of joiner, leaver and the validator's own deposit/withdraw/update occurs; validator deposit, withdraw, withdraw of more than its own tokens, stop accepting delegations; equivocation evidence against s1), with StakingTrieFrequency 2 and 3.  On every period-end block an observer classifies, from the period-end receipt, the withdraw queue and the pending records of the ended period, the exit every pending transaction took (counters take_effect:*; a HARNESS-ERROR is printed when a targeted exit is never reached) and checks that a sender whose delegation/deposit failed to activate has exactly its tokens back on its balance (where nothing else moves that balance)"
+	if r.Quick() {
+		chainx.ExploreFrom(r, hooks, noForced, chainx.MenuLimits, []string{"atmax-d1", "atmax-d2", "atmax-full"}, 2)
+		chainx.ExploreFrom(r, hooks, freq3, chainx.MenuLimits, []string{"atmax-d1/3", "atmax-d2/3"}, 3)
+	} else {
+		menu := append(append([]string{}, chainx.MenuLimits...), chainx.MenuLimitsMore...)
+		chainx.ExploreFrom(r, hooks, noForced, menu, []string{"atmax-d1", "atmax-d2", "atmax-full", "belowmax-d1"}, 3)
+		chainx.ExploreFrom(r, hooks, freq3, menu, []string{"atmax-d1/3", "atmax-d2/3", "atmax-full/3"}, 3)
+		chainx.ExploreFrom(r, hooks, noForced, chainx.MenuLimits, []string{"atmax-d1", "atmax-d2"}, 4)
+	}
+	chainx.LimitsVacuity(r)
 }
 
 func Replay(r *mc.Run, v *mc.Violation) { chainx.ReplayHist(r, v, hooks) }
